@@ -47,10 +47,13 @@ type scenario struct {
 	Conflicts int      `json:"conflicts"`
 	// OptionalFirst: the optional source is listed before the required one
 	OptionalFirst bool `json:"optionalFirst"`
+	// LongLived: all passes of a history run in one operator process (states rebuilt by path
+	// replay), and a deleted template may be re-created under the same name with another text
+	LongLived bool `json:"longLived"`
 }
 
 func (sc scenario) name() string {
-	return fmt.Sprintf("template cluster=%v templates=%v sources=%s edits=%d restarts=%d faults=%d conflicts=%d optionalFirst=%v", sc.Cluster, sc.Templates, sc.Sources, sc.Edits, sc.Restarts, sc.Faults, sc.Conflicts, sc.OptionalFirst)
+	return fmt.Sprintf("template cluster=%v templates=%v sources=%s edits=%d restarts=%d faults=%d conflicts=%d optionalFirst=%v longLived=%v", sc.Cluster, sc.Templates, sc.Sources, sc.Edits, sc.Restarts, sc.Faults, sc.Conflicts, sc.OptionalFirst, sc.LongLived)
 }
 
 func (sc scenario) tKey() kmodel.Key {
@@ -278,9 +281,14 @@ func check(sc scenario) func(before *world.World, ev world.Event, pass *world.Pa
 
 func system(sc scenario) *world.System {
 	return &world.System{
-		Name: sc.name(),
+		Name:       sc.name(),
+		Persistent: sc.LongLived,
 		Init: func() *world.World {
 			w := osw.NewWorld()
+			if sc.LongLived {
+				w.LongLived()
+				w.Budget["recreate"] = 1
+			}
 			if sc.Cluster {
 				w.MustCreate(&corev1alpha1.ClusterObjectTemplate{ObjectMeta: metav1.ObjectMeta{Name: "t"}, Spec: corev1alpha1.ObjectTemplateSpec{Template: templates[sc.Templates[0]], Sources: sc.sources()}})
 			} else {
@@ -361,6 +369,16 @@ func system(sc scenario) *world.System {
 					return nil
 				}})
 			}
+			if t == nil && w.Budget["recreate"] > 0 && !sc.Cluster {
+				for _, n := range sc.Templates {
+					n := n
+					evs = append(evs, world.Event{Name: "user:re-create-template:" + n, Apply: func(w *world.World) *world.Pass {
+						w.Budget["recreate"]--
+						w.MustCreate(&corev1alpha1.ObjectTemplate{ObjectMeta: metav1.ObjectMeta{Name: "t", Namespace: world.NS}, Spec: corev1alpha1.ObjectTemplateSpec{Template: templates[n], Sources: sc.sources()}})
+						return nil
+					}})
+				}
+			}
 			if w.Budget["restart"] > 0 && len(w.Refs) > 0 {
 				evs = append(evs, world.Event{Name: "operator:restart", Apply: func(w *world.World) *world.Pass {
 					w.Budget["restart"]--
@@ -385,6 +403,7 @@ func scenarios(quick bool) []scenario {
 		{Templates: []string{"ok"}, Sources: "normal", Edits: 2, Faults: 1, Conflicts: 1},
 		{Templates: []string{"ok", "noparse"}, Sources: "normal", Edits: 3, Restarts: 1, OptionalFirst: true},
 		{Cluster: true, Templates: []string{"okns"}, Sources: "normal", Edits: 2, OptionalFirst: true},
+		{Templates: []string{"ok", "noparse"}, Sources: "normal", Edits: 3, LongLived: true},
 	}
 	if !quick {
 		out = append(out,
@@ -398,7 +417,7 @@ func scenarios(quick bool) []scenario {
 
 func run(o checks.Opts) *report.Report {
 	rep := report.New("C18", "bfs")
-	rep.Rule = "explicit-state BFS: ObjectTemplate t (and a ClusterObjectTemplate variant) with a required source s1 (.data.x) and an optional source s2 (.data.y) listed in either order, template text from {renders both values, missing key, does not parse, foreign namespace, cluster-scoped kind}; events = create / edit / delete each source, switch template, reconcile, delete the template, operator restart (dynamic cache lost), garbage collector, every fault kind at every API call of a template pass and a foreign write landing before each of its writes (budgeted), with an edit budget; source values 1 / 2 / empty, the template has a conditional key and a list that shrinks; source variants: in namespace, in another namespace, cluster-scoped kind; monitor on every ObjectTemplate pass incl. the real EnqueueWatchingObjects handler over the cache's owner sets"
+	rep.Rule = "explicit-state BFS: ObjectTemplate t (and a ClusterObjectTemplate variant) with a required source s1 (.data.x) and an optional source s2 (.data.y) listed in either order, template text from {renders both values, missing key, does not parse, foreign namespace, cluster-scoped kind}; events = create / edit / delete each source, switch template, reconcile, delete the template, operator restart (dynamic cache lost), garbage collector, (one system) all passes in one long-lived operator process with the template deleted and re-created under the same name with another text, every fault kind at every API call of a template pass and a foreign write landing before each of its writes (budgeted), with an edit budget; source values 1 / 2 / empty, the template has a conditional key and a list that shrinks; source variants: in namespace, in another namespace, cluster-scoped kind; monitor on every ObjectTemplate pass incl. the real EnqueueWatchingObjects handler over the cache's owner sets"
 	scs := scenarios(o.Quick())
 	rep.Bounds["systems"] = len(scs)
 	for i, sc := range scs {
@@ -431,9 +450,9 @@ func init() {
 		},
 		Subs: []*checks.Sub{{Name: "bfs", Shards: func(t string) int {
 			if t == "thorough" {
-				return 10
+				return 11
 			}
-			return 8
+			return 9
 		}, Run: run, Replay: replay, Parallel: true}},
 	})
 }
